@@ -3,7 +3,9 @@ package props
 import (
 	"encoding/json"
 	"fmt"
+	"os"
 	"reflect"
+	"sort"
 	"strings"
 
 	"github.com/philpearl/plenc"
@@ -327,6 +329,14 @@ func runScenario(c *mc.Ctx, prop string, sc scenario) {
 			bounds = append(bounds, b)
 		}
 	}
+	// self-test switches for the explorer itself (tools/e3_selftest.sh): only the sleep-set
+	// search, or only the plain unbounded search
+	switch os.Getenv("VERIF_E3_MODE") {
+	case "por-only":
+		bounds = []int{-1}
+	case "full-only":
+		bounds = []int{-2}
+	}
 	completed := "none"
 	var xerr string
 	capped := false
@@ -357,7 +367,16 @@ func runScenario(c *mc.Ctx, prop string, sc scenario) {
 			}
 		}
 		nbad = 0
-		x.Explore()
+		if b == -2 {
+			x.Bound = -1
+			x.Explore()
+		} else if b < 0 {
+			// all interleavings, one representative per class of commuting reorderings (sleep sets)
+			x.ExploreAll()
+			c.Count("sleep_set_blocked", x.Blocked)
+		} else {
+			x.Explore()
+		}
 		execs += x.Execs
 		points += x.Points
 		if x.MaxDev > maxDev {
@@ -386,6 +405,14 @@ func runScenario(c *mc.Ctx, prop string, sc scenario) {
 	c.Count("schedules", execs)
 	c.Count("decision_points", points)
 	c.Count("distinct_outcome_vectors", int64(len(outcomes)))
+	if os.Getenv("VERIF_E3_MODE") != "" {
+		var ks []string
+		for k := range outcomes {
+			ks = append(ks, k)
+		}
+		sort.Strings(ks)
+		c.Note(fmt.Sprintf("OUTCOMES %s => %d distinct: %x", sc.name, len(ks), mc.Hash(strings.Join(ks, "\n"))))
+	}
 	c.Dim("completed-bound:" + completed)
 	if xerr != "" {
 		c.MachineErr(prop + " " + sc.name + ": " + xerr)
